@@ -175,6 +175,26 @@ def run_case(d):
         shutil.rmtree(path, ignore_errors=True)
 
 
+def prestore(d, classes, rt, path):
+    """Phase A: pre-store the generated subset with another chunking (single-thread processor), then delete
+    every directory that is not in the subset."""
+    stored = list(d["stored"])
+    if not stored:
+        return False
+    set_sources(rt, d, "cutsA")
+    ctxA = make_context(classes, [strax.DataDirectory(path)])
+    for t in stored:
+        try:
+            ctxA.make("r", t, save=(t,), processor="single_thread", progress_bar=False)
+        except Exception as e:  # noqa
+            raise Violation("prestore.raised:" + type(e).__name__, f"{e!r} making {t} {d}") from e
+    keep = {str(ctxA.key_for("r", t)) for t in stored}
+    for x in stored_dirs(path):
+        if x not in keep:
+            shutil.rmtree(os.path.join(path, x))
+    return True
+
+
 def _run_case(d, spec, unit, token, rt, path):
     classes = graphs.build_classes(spec, token, unit)
     ref = graphs.evaluate(spec, d["rows"], unit)
@@ -184,20 +204,7 @@ def _run_case(d, spec, unit, token, rt, path):
     classes_hit = []
     steer(d, spec, prov)
 
-    # ---- phase A: pre-store the subset with another chunking, single-thread processor
-    stored = list(d["stored"])
-    if stored:
-        set_sources(rt, d, "cutsA")
-        ctxA = make_context(classes, [strax.DataDirectory(path)])
-        for t in stored:
-            try:
-                ctxA.make("r", t, save=(t,), processor="single_thread", progress_bar=False)
-            except Exception as e:  # noqa
-                raise Violation("prestore.raised:" + type(e).__name__, f"{e!r} making {t} {d}") from e
-        keep = {str(ctxA.key_for("r", t)) for t in stored}
-        for x in stored_dirs(path):
-            if x not in keep:
-                shutil.rmtree(os.path.join(path, x))
+    if prestore(d, classes, rt, path):
         classes_hit.append("stored_subset")
 
     # ---- phase B: the request under test
@@ -242,6 +249,7 @@ def _run_case(d, spec, unit, token, rt, path):
         classes_hit.append("zero_duration_chunk")
     if n_stored:
         classes_hit.append("saved_side_effect")
+    stored = list(d["stored"])
     sib = [n for n in spec["nodes"] if n["op"] == "multi" and len(set(n["outs"]) & set(stored)) == 1]
     if sib:
         classes_hit.append("multi_output_sibling_stored")
